@@ -457,3 +457,7 @@ def run(ctx):
     r7_kind_preserving_conversions(ctx)
     r8_casting_emitter(ctx)
     r9_write_back_fixes_length_for_every_form(ctx)
+    # an element handed to a SUB / FUNCTION is written back unconverted: the checker must demand the exact type
+    from . import c12
+    from .. import optables as ot
+    c12.r4_by_ref_exact(ctx, ot.OpTables(ctx.prog), "C04.R10")
